@@ -31,6 +31,7 @@ type PStmt struct {
 	Mode  int     `json:"mode,omitempty"` // filled in by the renderer: mode in force
 	Tag   string  `json:"tag,omitempty"`  // what the statement is there to observe (C05/C06 signatures)
 	Alt   string  `json:"alt,omitempty"`  // raw statements of C11: the text of the inlined variant
+	Off   int64   `json:"off,omitempty"`  // farjmp: the offset (N is the selector)
 }
 
 type Prog struct {
@@ -64,6 +65,8 @@ func (s *PStmt) Line() string {
 		return fmt.Sprintf("\tMOV %s,%s", s.Reg.Text, s.Label)
 	case "lgdt":
 		return fmt.Sprintf("\tLGDT [%s]", s.Label)
+	case "farjmp":
+		return fmt.Sprintf("\tJMP DWORD %d:0x%x", s.N, s.Off)
 	case "meml":
 		return fmt.Sprintf("\tMOV %s,[%s]", s.Reg.Text, s.Label)
 	case "data":
@@ -214,6 +217,14 @@ func (p *Prog) DoWalk(out []byte) *Walk {
 			}
 			lane := in.Ops[1].ASize / 8
 			w.Obs = append(w.Obs, Obs{Stmt: i, Off: off + in.Len - lane, Width: lane, Label: s.Label, Value: int64(uint64(in.Ops[1].Disp) & widthMask(in.Ops[1].ASize)), Via: "meml"})
+			w.Len[i] = in.Len
+			off += in.Len
+		case "farjmp":
+			in := Decode(out[minInt(off, len(out)):], mode)
+			w.Decodes = append(w.Decodes, DecQ{Bytes: clip(out[minInt(off, len(out)):], 15), Mode: mode})
+			if in.Bad != "" || in.Op != "JMPF" || len(in.Ops) != 1 || in.Ops[0].Kind != KFar || in.Ops[0].Sel != s.N || in.Ops[0].Off != s.Off || in.Ops[0].OffW != 32 {
+				return fail(i, "encoding", fmt.Sprintf("statement %d `%s` does not decode to a far jump to %#x:%#x with a 32-bit offset at offset %d: %s", i, strings.TrimSpace(s.Line()), s.N, s.Off, off, in))
+			}
 			w.Len[i] = in.Len
 			off += in.Len
 		case "lgdt":
